@@ -13,8 +13,10 @@ META = {
         'free, including the raising regions); on every path the solver '
         'shows: the argument tree is unchanged on return and on raise, a '
         'second call yields an equal result, the result is well-formed '
-        '(0 <= start <= end <= total_time / steps, no negative time) and every '
-        'output note is the image of an input note.',
+        '(0 <= start <= end <= total_time / steps, no negative time or step) '
+        'and every output note is the image of an input note.  Keyword '
+        'arguments and documented defaults, raise conditions and counts are '
+        'checked against oracles written from the docstrings.',
     'level_note':
         'Trusted: z3, reals for doubles, symproto (its copy-on-extend / '
         'share-on-index aliasing behaviour is what makes aliasing defects '
@@ -33,17 +35,42 @@ META = {
         'double fields are exact reals',
         'well-formed input; arguments non-negative where they are times',
         'operations built on extraction (extract, split*, repeat, expand, '
-        'rectify) place all non-note events at one shared symbolic instant '
-        '(independent instants only in the optional thorough jobs)',
-        'transpose amount in [-2,2] (the chord-symbol spelling walk loops over '
-        'the amount); time maps piecewise linear with concrete slopes',
+        'rectify) place all non-note events of the fully populated input at '
+        'one shared symbolic instant; independent instants in the lean inputs '
+        '(notes + one or two events of the listed kinds) and in the optional '
+        'thorough jobs',
+        'transpose amount in [-2,2] with chord symbols (the spelling walk '
+        'loops over the amount), [-24,24] with transpose_chords=False; time '
+        'maps piecewise linear with concrete slopes',
+        'concrete where the library hashes or multiplies: steps_per_quarter '
+        '3/4, steps_per_second 7/100, beats_per_minute 90/120, '
+        'preserve_control_numbers [7], sustain_control_number 66',
+        'merge / concatenate of already quantized sequences only on the '
+        'refusing path',
     ],
     'bounds': {
-        'quick': '1 note (2 for sustain/concatenate) + one element of every '
-                 'repeated field per input sequence',
-        'thorough': '2 notes everywhere, 3 for trim/shift/stretch',
+        'quick': 'fully populated input: 1 note (2 for trim/shift/stretch/'
+                 'transpose/concat/merge/redundant/quantize) + one element of '
+                 'every repeated field; lean input: 0-2 notes in any storage '
+                 'order + 0-2 events of one or two kinds in any storage order; '
+                 'keyword arguments: minimum_duration, sequence_duration, '
+                 'transpose_chords, in_place (stretch, transpose), default '
+                 'pitch range / skip_splits_inside_notes / gap_seconds, '
+                 'sustain_control_number, preserve_control_numbers; 0/1/3 '
+                 'sequences and one object twice for concatenate/merge, '
+                 'duration lists of the wrong length; <= 3 pieces, <= 3 '
+                 'repeats; nested section group x 0..2; quantized input '
+                 '(relative and absolute) for every operation that refuses it '
+                 'and for transpose/redundant/quantize*; tuple results '
+                 '(counts, alignment) and caller-owned lists are compared too',
+        'thorough': '2 notes everywhere, 3 for trim/shift/stretch; the '
+                    'keyword variants on fully populated inputs',
     },
-    'outside': ['larger inputs', 'float rounding'],
+    'outside': ['larger inputs', 'float rounding',
+                'total_time == 0 for repeat (ZeroDivisionError), stretch '
+                'factor <= 0, section groups naming a missing section',
+                'read-only consumers (sequence_to_pianoroll, '
+                'sequence_to_valued_intervals, steps_per_bar_...)'],
 }
 
 
@@ -65,6 +92,12 @@ def _wf(c, r, label):
       conds.append(e.time >= 0)
   conds.append(r.total_time >= 0)
   c.check(c.And(conds), label + ': result well-formed')
+  # "no time is negative" on the step grid of a quantized result
+  steps = [c.Implies(quant, e.quantized_step >= 0)
+           for name in ('control_changes', 'text_annotations')
+           for e in getattr(r, name)]
+  steps.append(c.Implies(quant, r.total_quantized_steps >= 0))
+  c.check(c.And(steps), label + ': no negative quantized step')
 
 
 def _not_invented(c, r, inputs, shift, limit, label):
@@ -91,18 +124,53 @@ def _results(res):
   return [res]
 
 
+def _extras(res):
+  """Elements after the sequence of a tuple result (deleted / skipped note
+  counts, the alignment array of rectify_beats) as nested lists / scalars."""
+  if not isinstance(res, tuple):
+    return []
+  return [x.tolist() if hasattr(x, 'tolist') else x for x in res[1:]]
+
+
+def _val_eq(c, x, y):
+  if isinstance(x, (list, tuple)) or isinstance(y, (list, tuple)):
+    if not (isinstance(x, (list, tuple)) and isinstance(y, (list, tuple))):
+      return False
+    if len(x) != len(y):
+      return False
+    return c.And([_val_eq(c, p, q) for p, q in zip(x, y)] or [True])
+  return c.eq(x, y)
+
+
 def _same(c, a, b):
   ra, rb = _results(a), _results(b)
   if len(ra) != len(rb):
     return False
-  return c.And([c.msg_eq(x, y) for x, y in zip(ra, rb)] or [True])
+  return c.And([c.msg_eq(x, y) for x, y in zip(ra, rb)] +
+               [_val_eq(c, _extras(a), _extras(b))])
 
 
-def _monitor(c, label, inputs, call, limit, shift=0, allowed=()):
+def _list_kept(c, lst, saved):
+  """The caller's Python list holds the same elements in the same order."""
+  if len(lst) != len(saved):
+    return False
+  return c.And([True if x is y else
+                (False if hasattr(x, 'notes') or hasattr(y, 'notes')
+                 else c.eq(x, y))
+                for x, y in zip(lst, saved)] or [True])
+
+
+def _monitor(c, label, inputs, call, limit, shift=0, allowed=(), lists=()):
+  """`lists`: Python lists handed to the operation by the caller (split
+  times, durations, the list of sequences); they must come back as given."""
   befores = [c.snapshot(x) for x in inputs]
+  saved = [list(l) for l in lists]
   res, err = c.raises(call)
   for x, b in zip(inputs, befores):
     c.check(c.msg_eq(x, b), label + ': argument unchanged' +
+            (' (raising path)' if err is not None else ''))
+  for l, l0 in zip(lists, saved):
+    c.check(_list_kept(c, l, l0), label + ': list argument unchanged' +
             (' (raising path)' if err is not None else ''))
   if err is not None:
     c.check(isinstance(err, allowed), label + ': only documented errors')
@@ -118,18 +186,103 @@ def _monitor(c, label, inputs, call, limit, shift=0, allowed=()):
   c.check(_same(c, res, res2), label + ': second call gives the same result')
   for x, b in zip(inputs, befores):
     c.check(c.msg_eq(x, b), label + ': argument unchanged after second call')
-  for r in _results(res):
+  for l, l0 in zip(lists, saved):
+    c.check(_list_kept(c, l, l0),
+            label + ': list argument unchanged after second call')
+  rs = _results(res)
+  c.check(all(rs[i] is not rs[j] for i in range(len(rs)) for j in range(i)),
+          label + ': returned sequences are distinct objects')
+  for r in rs:
     c.check(all(r is not x for x in inputs), label + ': returns a new object')
     _wf(c, r, label)
     _not_invented(c, r, inputs, shift, limit, label)
   return res
 
 
+def _add_event(c, ns, kind, name):
+  """One more element of repeated field `kind` at its own symbolic instant."""
+  t = c.real(name + '_t', 0)
+  if kind == 'tempos':
+    ns.tempos.add(time=t, qpm=c.real(name + '_q', 10, 480))
+  elif kind == 'time_signatures':
+    ns.time_signatures.add(time=t, numerator=c.int(name + '_n', 1, 12),
+                           denominator=4)
+  elif kind == 'key_signatures':
+    ns.key_signatures.add(time=t, key=c.int(name + '_k', 0, 11),
+                          mode=c.int(name + '_m', 0, 1))
+  elif kind == 'control_changes':
+    ns.control_changes.add(time=t, control_number=c.int(name + '_n', 0, 127),
+                           control_value=c.int(name + '_v', 0, 127),
+                           instrument=c.int(name + '_i', 0, 1))
+  elif kind == 'pitch_bends':
+    ns.pitch_bends.add(time=t, bend=c.int(name + '_b', -8192, 8191),
+                       instrument=c.int(name + '_i', 0, 1))
+  elif kind == 'text_annotations':
+    ns.text_annotations.add(time=t, text='Cmaj7',
+                            annotation_type=c.int(name + '_ty', 0, 2))
+  elif kind == 'section_annotations':
+    ns.section_annotations.add(time=t, section_id=c.int(name + '_id', 0, 5))
+  else:
+    raise KeyError(kind)
+  return t
+
+
+def _lean(c, ns, N, P, kinds):
+  """N notes (two instruments) and one event of each listed kind, every event
+  at its own instant: the shape that exposes in-place sorting of the caller's
+  notes, aliasing between pieces and events carried into several pieces, at a
+  cost that fits the quick tier."""
+  notes = K.add_notes(c, ns, N, prefix=P + 'n', instruments=(0, 1), drums=True,
+                      programs=(0, 127))
+  tt = K.well_formed_total(c, ns, notes, name=P + 'tt')
+  ev = [(kind, 0, _add_event(c, ns, kind, P + 'l_' + kind)) for kind in kinds]
+  ns.id = P + 'id'
+  ns.ticks_per_quarter = c.int(P + 'tpq', 1, 960)
+  ns.sequence_metadata.title = 'title'
+  ns.subsequence_info.start_time_offset = c.real(P + 'sub_s', 0)
+  return {'notes': notes, 'tt': tt, 'events': ev}
+
+
+def _quantize_input(c, ns, how, P):
+  """Marks `ns` as an already quantized, well-formed sequence."""
+  if how == 'abs':
+    ns.quantization_info.steps_per_second = c.int(P + 'qsps', 1, 100)
+  else:
+    ns.quantization_info.steps_per_quarter = c.int(P + 'qspq', 1, 96)
+  tq = c.int(P + 'tqs', 0, 1 << 20)
+  ns.total_quantized_steps = tq
+  for i, n in enumerate(ns.notes):
+    qs = c.int('%sn%d_qs' % (P, i), 0)
+    qe = c.int('%sn%d_qe' % (P, i), 0)
+    c.assume(qs <= qe)
+    c.assume(qe <= tq)
+    n.quantized_start_step = qs
+    n.quantized_end_step = qe
+  for name in ('control_changes', 'text_annotations'):
+    for j, e in enumerate(getattr(ns, name)):
+      e.quantized_step = c.int('%s%s%d_q' % (P, name[0], j), 0, 1 << 20)
+
+
 def _full(c, N, prefix='', **kw):
+  """The input of one operation.  Job parameters: `lean` (list of event kinds;
+  see _lean) instead of the fully populated sequence, `dup` (kinds that get a
+  second element at an independent instant, so also stored out of time order),
+  `quantized` ('rel' / 'abs': the input is itself a quantized sequence)."""
   ns = c.pb.NoteSequence()
-  kw.setdefault('shared_time', c.params.get('shared_time', False))
-  info = K.populate_full(c, ns, N, prefix=prefix, groups=kw.pop('groups', False),
-                         **kw)
+  lean = c.params.get('lean')
+  if lean is not None:
+    info = _lean(c, ns, N, prefix, lean)
+    kw.pop('groups', None)
+  else:
+    kw.setdefault('shared_time', c.params.get('shared_time', False))
+    info = K.populate_full(c, ns, N, prefix=prefix,
+                           groups=kw.pop('groups', False), **kw)
+  for kind in c.params.get('dup', ()):
+    info['events'].append(
+        (kind, len(getattr(ns, kind)),
+         _add_event(c, ns, kind, prefix + 'x_' + kind)))
+  if c.params.get('quantized'):
+    _quantize_input(c, ns, c.params['quantized'], prefix)
   return ns, info
 
 
@@ -140,45 +293,113 @@ def op_trim(c, sl, N):
 
 
 def op_extract(c, sl, N):
-  ns, _ = _full(c, N)
+  ns, info = _full(c, N)
   a, b = c.real('a', 0), c.real('b', 0)
-  _monitor(c, 'extract', [ns], lambda: sl.extract_subsequence(ns, a, b), N,
-           allowed=(ValueError,))
+  if not c.params.get('pcn'):
+    _monitor(c, 'extract', [ns], lambda: sl.extract_subsequence(ns, a, b), N,
+             allowed=(ValueError,))
+    return
+  # preserve_control_numbers: one caller-chosen controller instead of 64/66/67
+  # (concrete: the library hashes (instrument, controller) pairs)
+  keep = [c.params['pcn']]
+  res = _monitor(
+      c, 'extract(preserve)', [ns],
+      lambda: sl.extract_subsequence(ns, a, b, preserve_control_numbers=keep),
+      N, allowed=(ValueError,), lists=[keep])
+  if res is None:
+    return
+  c.check(c.And([c.eq(cc.control_number, keep[0])
+                 for cc in res.control_changes] or [True]),
+          'extract(preserve): only the listed controllers are kept')
+  # documented: events of a preserved controller inside the range stay, the
+  # most recent one before the range is included at its start, later ones go
+  src = list(ns.control_changes)
+  if len(src) == 1:
+    listed = c.eq(src[0].control_number, keep[0])
+    n_out = len(res.control_changes)
+    c.check(c.Implies(c.And(listed, src[0].time < b), n_out == 1),
+            'extract(preserve): listed controller before the end is kept')
+    c.check(c.Implies(c.Or(c.Not(listed), src[0].time > b), n_out == 0),
+            'extract(preserve): other or later controller events are removed')
+
+
+def _split_args(c, first):
+  """Positional arguments of a split call; skip=None leaves the keyword out
+  (documented default: False)."""
+  skip = c.params['skip']
+  return (first,) if skip is None else (first, skip)
 
 
 def op_split_list(c, sl, N):
-  ns, _ = _full(c, N)
-  ts = [c.real('t%d' % i, 0) for i in range(c.params.get('M', 1))]
-  skip = c.params['skip']
-  _monitor(c, 'split(list)', [ns],
-           lambda: sl.split_note_sequence(ns, list(ts), skip), N,
-           allowed=(ValueError,))
+  ns, info = _full(c, N)
+  M = c.params.get('M', 1)
+  ts = [c.real('t%d' % i, 0) for i in range(M)]
+  args = _split_args(c, ts)
+  res = _monitor(c, 'split(list)', [ns],
+                 lambda: sl.split_note_sequence(ns, *args), N,
+                 allowed=(ValueError,), lists=[ts])
+  if res is not None and not c.params['skip']:
+    # skip_splits_inside_notes False (given or by default): split at every
+    # listed time regardless of notes
+    inside = c.And([c.And(t > 0, t < info['tt']) for t in ts] +
+                   [c.Not(c.eq(ts[i], ts[j]))
+                    for i in range(M) for j in range(i)])
+    c.check(c.Implies(inside, len(res) == M + 1),
+            'split(list): without skipping every listed time splits')
 
 
 def op_split_hop(c, sl, N):
   ns, info = _full(c, N)
   hop = c.real('hop')
   c.assume(hop > 0)
-  c.assume(info['tt'] <= c.params.get('max_hops', 2) * hop)
-  skip = c.params['skip']
-  _monitor(c, 'split(hop)', [ns], lambda: sl.split_note_sequence(ns, hop, skip),
-           N, allowed=(ValueError,))
+  H = c.params.get('max_hops', 2)
+  c.assume(info['tt'] <= H * hop)
+  args = _split_args(c, hop)
+  res = _monitor(c, 'split(hop)', [ns],
+                 lambda: sl.split_note_sequence(ns, *args),
+                 N, allowed=(ValueError,))
+  if res is not None and not c.params['skip']:
+    pieces = c.Count([k * hop < info['tt'] for k in range(0, H)])
+    c.check(c.eq(len(res), pieces),
+            'split(hop): without skipping one piece per started hop')
 
 
 def op_split_changes(c, sl, N):
-  ns, _ = _full(c, N)
-  skip = c.params['skip']
-  _monitor(c, 'split(time changes)', [ns],
-           lambda: sl.split_note_sequence_on_time_changes(ns, skip), N,
-           allowed=(ValueError,))
+  ns, info = _full(c, N)
+  args = () if c.params['skip'] is None else (c.params['skip'],)
+  res = _monitor(c, 'split(time changes)', [ns],
+                 lambda: sl.split_note_sequence_on_time_changes(ns, *args), N,
+                 allowed=(ValueError,))
+  if (res is not None and not c.params['skip'] and
+      len(ns.tempos) == 1 and len(ns.time_signatures) == 1):
+    tp, sg = ns.tempos[0], ns.time_signatures[0]
+    tt = info['tt']
+    real = c.And(c.Not(c.eq(tp.qpm, 120)), c.Not(c.eq(sg.numerator, 4)),
+                 tp.time > 0, tp.time < tt, sg.time > 0, sg.time < tt)
+    c.check(c.Implies(real, c.eq(len(res),
+                                 c.If(c.eq(tp.time, sg.time), 2, 3))),
+            'split(time changes): without skipping every change splits')
 
 
 def op_split_silence(c, sl, N):
-  ns, _ = _full(c, N)
-  gap = c.real('gap', 0)
-  _monitor(c, 'split(silence)', [ns],
-           lambda: sl.split_note_sequence_on_silence(ns, gap), N,
-           allowed=(ValueError,))
+  ns, info = _full(c, N)
+  if c.params.get('default_gap'):
+    res = _monitor(c, 'split(silence)', [ns],
+                   lambda: sl.split_note_sequence_on_silence(ns), N,
+                   allowed=(ValueError,))
+    gap = 3
+  else:
+    gap = c.real('gap', 0)
+    res = _monitor(c, 'split(silence)', [ns],
+                   lambda: sl.split_note_sequence_on_silence(ns, gap), N,
+                   allowed=(ValueError,))
+  if res is not None and N == 1:
+    # one note: the only silence that can exceed the gap is the lead-in
+    s0 = ns.notes[0].start_time
+    c.check(c.Implies(s0 <= gap, len(res) <= 1),
+            'split(silence): no split without a gap longer than gap_seconds')
+    c.check(c.Implies(c.And(s0 > gap, s0 < info['tt']), len(res) == 2),
+            'split(silence): a longer gap splits')
 
 
 def op_shift(c, sl, N):
@@ -188,30 +409,132 @@ def op_shift(c, sl, N):
            allowed=(ValueError,))
 
 
+_TIMED = ('time_signatures', 'key_signatures', 'tempos', 'pitch_bends',
+          'control_changes', 'text_annotations')
+
+
 def op_stretch(c, sl, N):
   ns, _ = _full(c, N)
   f = c.real('f')
   c.assume(f > 0)
-  _monitor(c, 'stretch', [ns], lambda: sl.stretch_note_sequence(ns, f), N)
+  if not c.params.get('in_place'):
+    _monitor(c, 'stretch', [ns], lambda: sl.stretch_note_sequence(ns, f), N)
+    return
+  # in_place=True: "the input note_sequence is edited directly"
+  old = c.snapshot(ns)
+  res, err = c.raises(lambda: sl.stretch_note_sequence(ns, f, in_place=True))
+  c.check(err is None, 'stretch(in_place): does not raise')
+  if err is not None:
+    return
+  c.cover('stretch(in_place) returns')
+  c.check(res is ns, 'stretch(in_place): returns the argument itself')
+  conds = [c.eq(ns.total_time, old.total_time * f),
+           len(ns.notes) == len(old.notes)]
+  for m, n in zip(ns.notes, old.notes):
+    conds += [c.eq(m.start_time, n.start_time * f),
+              c.eq(m.end_time, n.end_time * f), c.eq(m.pitch, n.pitch)]
+  for name in _TIMED:
+    conds.append(len(getattr(ns, name)) == len(getattr(old, name)))
+    for m, n in zip(getattr(ns, name), getattr(old, name)):
+      conds.append(c.eq(m.time, n.time * f))
+  c.check(c.And(conds), 'stretch(in_place): the argument is the stretched one')
+  _wf(c, ns, 'stretch(in_place)')
 
 
 def op_transpose(c, sl, N):
+  pb = c.pb
   ns, _ = _full(c, N)
-  k = c.int('k', -2, 2)
-  lo = c.int('lo', 0, 127)
-  hi = c.int('hi', 0, 127)
+  CH = pb.NoteSequence.TextAnnotation.CHORD_SYMBOL
+  chords = c.params.get('chords', True)
+  in_place = c.params.get('in_place', False)
+  # the chord-symbol spelling walk loops over the amount; without chords the
+  # amount is free beyond an octave (key wrap-around)
+  k = c.int('k', -2, 2) if chords else c.int('k', -24, 24)
+  bad = c.params.get('odd_chord')
+  if bad:
+    # a second chord annotation that is no chord ('N.C.') or cannot be parsed
+    ns.text_annotations.add(time=c.real('ta2_t', 0), annotation_type=CH,
+                            text=c.choice('ta2_x', ['N.C.', 'H7', 'Cmaj7/X']))
+  kw = {}
+  if not chords:
+    kw['transpose_chords'] = False
+  if in_place:
+    kw['in_place'] = True
+  if c.params.get('default_range'):
+    lo, hi = 0, 127     # documented defaults: the MIDI pitch range
+    call = lambda: sl.transpose_note_sequence(ns, k, **kw)
+  else:
+    lo = c.int('lo', 0, 127)
+    hi = c.int('hi', 0, 127)
+    call = lambda: sl.transpose_note_sequence(ns, k, lo, hi, **kw)
   cs = c.mod('chord_symbols_lib')
-  res = _monitor(c, 'transpose', [ns],
-                 lambda: sl.transpose_note_sequence(ns, k, lo, hi), N, shift=k,
-                 allowed=(cs.ChordSymbolError,))
+  old = c.snapshot(ns)
+  if in_place:
+    res, err = c.raises(call)
+    if err is not None:
+      c.check(isinstance(err, cs.ChordSymbolError),
+              'transpose(in_place): only documented errors')
+      return
+    c.cover('transpose(in_place) returns')
+    c.check(isinstance(res, tuple) and res[0] is ns,
+            'transpose(in_place): returns the argument itself')
+    _wf(c, ns, 'transpose(in_place)')
+    _not_invented(c, ns, [old], k, N, 'transpose(in_place)')
+  else:
+    res = _monitor(c, 'transpose', [ns], call, N, shift=k,
+                   allowed=(cs.ChordSymbolError,))
+    if res is None:
+      return
+  out, deleted = res
+  c.check(c.eq(deleted, N - len(out.notes)),
+          'transpose: deleted count is the number of notes removed')
+  # documented: notes assigned a pitch outside [min, max] are deleted
+  pitched = c.And([c.Not(n.is_drum) for n in old.notes] or [True])
+  kept = c.Count([c.And(lo <= n.pitch + k, n.pitch + k <= hi)
+                  for n in old.notes])
+  c.check(c.Implies(pitched, c.eq(len(out.notes), kept)),
+          'transpose: exactly the notes inside the allowed range are kept')
+  if not chords:
+    c.check(c.And([c.Not(c.eq(ta.annotation_type, CH))
+                   for ta in out.text_annotations] or [True]),
+            'transpose(no chords): chord symbols are removed')
+    c.check(c.eq(len(out.text_annotations),
+                 c.Count([c.Not(c.eq(ta.annotation_type, CH))
+                          for ta in old.text_annotations])),
+            'transpose(no chords): other annotations are kept')
 
 
 def op_quantize_rel(c, sl, N):
   ns, _ = _full(c, N)
   spq = c.params['spq']
-  _monitor(c, 'quantize', [ns], lambda: sl.quantize_note_sequence(ns, spq), N,
-           allowed=(sl.MultipleTempoError, sl.MultipleTimeSignatureError,
-                    sl.BadTimeSignatureError, sl.NegativeTimeError))
+  sig = c.params.get('signature')
+  if sig:
+    # a single time signature with any numerator incl. 0 and a denominator
+    # that may not be a power of two
+    del ns.time_signatures[:]
+    ns.time_signatures.add(time=0, numerator=c.int('sg_n', 0, 12),
+                           denominator=c.choice('sg_d', [4, 3, 8, 6]))
+  res = _monitor(c, 'quantize', [ns],
+                 lambda: sl.quantize_note_sequence(ns, spq), N,
+                 allowed=(sl.MultipleTempoError, sl.MultipleTimeSignatureError,
+                          sl.BadTimeSignatureError, sl.NegativeTimeError))
+  if res is None:
+    return
+  # documented Raises: a change of tempo / time signature, a zero numerator
+  # or a denominator that is no power of two cannot come back as a result
+  for evs, key, what in (
+      (ns.tempos, lambda e: (e.qpm,), 'tempo'),
+      (ns.time_signatures, lambda e: (e.numerator, e.denominator),
+       'time signature')):
+    evs = list(evs)
+    c.check(c.And([K.key_eq(c, key(e), key(evs[0])) for e in evs[1:]] or
+                  [True]),
+            'quantize: returns only without a %s change' % what)
+  for sg in ns.time_signatures:
+    c.check(c.And(c.Not(c.eq(sg.numerator, 0)),
+                  c.Or([c.eq(sg.denominator, d)
+                        for d in (1, 2, 4, 8, 16, 32, 64, 128)])),
+            'quantize: returns only for a usable time signature')
 
 
 def op_quantize_abs(c, sl, N):
@@ -224,34 +547,84 @@ def op_quantize_abs(c, sl, N):
 
 def op_sustain(c, sl, N):
   ns, _ = _full(c, N)
+  scn = c.params.get('scn')
   # make the populated control change a pedal event on a note's instrument
-  ns.control_changes.add(time=c.real('sus_t', 0), control_number=64,
-                         control_value=c.int('sus_v', 0, 127),
-                         instrument=ns.notes[0].instrument)
-  _monitor(c, 'apply_sustain', [ns],
-           lambda: sl.apply_sustain_control_changes(ns), N)
+  inst = ns.notes[0].instrument if N else 0
+  if scn is None:
+    ns.control_changes.add(time=c.real('sus_t', 0), control_number=64,
+                           control_value=c.int('sus_v', 0, 127),
+                           instrument=inst)
+    _monitor(c, 'apply_sustain', [ns],
+             lambda: sl.apply_sustain_control_changes(ns), N)
+    return
+  # a caller-chosen pedal controller; the added event is either that one or
+  # the default controller 64, which then is no pedal
+  ns.control_changes.add(time=c.real('sus_t', 0),
+                         control_number=c.choice('sus_n', [scn, 64]),
+                         control_value=c.int('sus_v', 0, 127), instrument=inst)
+  old = c.snapshot(ns)
+  res = _monitor(
+      c, 'apply_sustain(controller)', [ns],
+      lambda: sl.apply_sustain_control_changes(ns, sustain_control_number=scn),
+      N)
+  if res is not None:
+    none = c.And([c.Not(c.eq(cc.control_number, scn))
+                  for cc in old.control_changes] or [True])
+    c.check(c.Implies(none, c.msg_eq(res, old)),
+            'apply_sustain(controller): without an event of the chosen '
+            'controller the result is a plain copy')
+
+
+def _several(c, N, k):
+  """k input sequences (job parameter `same`: the same object twice)."""
+  seqs = [_full(c, N, prefix='ABC'[i])[0] for i in range(k)]
+  if c.params.get('same'):
+    seqs.append(seqs[0])
+  return seqs
+
+
+def _distinct(seqs):
+  out = []
+  for x in seqs:
+    if all(x is not y for y in out):
+      out.append(x)
+  return out
 
 
 def op_concat(c, sl, N):
-  a, _ = _full(c, N, prefix='A')
-  b, _ = _full(c, N, prefix='B')
-  _monitor(c, 'concatenate', [a, b], lambda: sl.concatenate_sequences([a, b]),
-           2 * N)
+  seqs = _several(c, N, c.params.get('K', 2))
+  allowed = ()
+  if c.params.get('quantized'):
+    # a quantized second sequence that has to be shifted is refused (as
+    # shift_sequence_times documents); with a first sequence of zero duration
+    # the sequences are merged and total_quantized_steps must cover them all
+    # (F-C11-b, fixed)
+    allowed = (sl.QuantizationStatusError,)
+  _monitor(c, 'concatenate', _distinct(seqs),
+           lambda: sl.concatenate_sequences(seqs), len(seqs) * N,
+           allowed=allowed, lists=[seqs])
 
 
 def op_concat_dur(c, sl, N):
-  a, _ = _full(c, N, prefix='A')
-  b, _ = _full(c, N, prefix='B')
-  d = [c.real('d0', 0), c.real('d1', 0)]
-  _monitor(c, 'concatenate(durations)', [a, b],
-           lambda: sl.concatenate_sequences([a, b], list(d)), 2 * N,
-           allowed=(ValueError,))
+  seqs = _several(c, N, c.params.get('K', 2))
+  d = [c.real('d%d' % i, 0) for i in range(c.params.get('D', len(seqs)))]
+  res = _monitor(c, 'concatenate(durations)', _distinct(seqs),
+                 lambda: sl.concatenate_sequences(seqs, d), len(seqs) * N,
+                 allowed=(ValueError,), lists=[seqs, d])
+  if res is not None:
+    # documented Raises
+    c.check(len(d) == len(seqs),
+            'concatenate(durations): returns only for as many durations as '
+            'sequences')
+    c.check(c.And([x >= s.total_time for x, s in zip(d, seqs)] or [True]),
+            'concatenate(durations): returns only if no duration is shorter '
+            'than its sequence')
 
 
 def op_merge(c, sl, N):
-  a, _ = _full(c, N, prefix='A')
-  b, _ = _full(c, N, prefix='B')
-  _monitor(c, 'merge', [a, b], lambda: sl.merge_sequences([a, b]), 2 * N)
+  seqs = _several(c, N, c.params.get('K', 2))
+  _monitor(c, 'merge', _distinct(seqs), lambda: sl.merge_sequences(seqs),
+           len(seqs) * N, lists=[seqs])
 
 
 def op_repeat(c, sl, N):
@@ -259,15 +632,37 @@ def op_repeat(c, sl, N):
   c.assume(info['tt'] > 0)
   d = c.real('dur')
   c.assume(d > 0)
-  c.assume(d <= 2 * info['tt'])
-  _monitor(c, 'repeat', [ns], lambda: sl.repeat_sequence_to_duration(ns, d),
-           2 * N, allowed=(ValueError,))
+  R = c.params.get('reps', 2)
+  if not c.params.get('seq_dur'):
+    c.assume(d <= R * info['tt'])
+    _monitor(c, 'repeat', [ns], lambda: sl.repeat_sequence_to_duration(ns, d),
+             R * N, allowed=(ValueError,))
+    return
+  # explicit sequence_duration: longer than total_time pads every repeat,
+  # shorter is refused by concatenate_sequences (ValueError)
+  sd = c.real('seq_dur')
+  c.assume(sd > 0)
+  c.assume(d <= R * sd)
+  res = _monitor(
+      c, 'repeat(sequence_duration)', [ns],
+      lambda: sl.repeat_sequence_to_duration(ns, d, sequence_duration=sd),
+      R * N, allowed=(ValueError,))
+  if res is not None:
+    c.check(sd >= info['tt'], 'repeat(sequence_duration): returns only if the '
+            'duration is not shorter than the sequence')
+    # repeat number r starts at r * sequence_duration
+    c.check(c.And([c.Or([c.And(c.eq(m.pitch, n['pitch']), c.Or(
+        [c.eq(m.start_time, n['start_time'] + r * sd) for r in range(R)]))
+                         for n in info['notes']] or [False])
+                   for m in res.notes] or [True]),
+            'repeat(sequence_duration): repeats start at multiples of the '
+            'given duration')
 
 
 def op_expand(c, sl, N):
   pb = c.pb
   ns, info = _full(c, N, section=False)
-  # two sections A(id 0) B(id 1) and the form |: A :| B
+  # two sections A(id 0) B(id 1)
   t1 = c.real('sec1_t', 0)
   c.assume(t1 < info['tt'])
   c.assume(t1 > 0)
@@ -278,12 +673,36 @@ def op_expand(c, sl, N):
   else:
     ns.section_annotations.add(time=0, section_id=0)
     ns.section_annotations.add(time=t1, section_id=1)
-  g = ns.section_groups.add(num_times=2)
-  g.sections.add(section_id=0)
-  g2 = ns.section_groups.add(num_times=1)
-  g2.sections.add(section_id=1)
-  _monitor(c, 'expand_section_groups', [ns],
-           lambda: sl.expand_section_groups(ns), 3 * N, allowed=(ValueError,))
+  if c.params.get('nested'):
+    # the form |: (A) B :| x nt  with (A) a nested group played once, nt 0..2
+    nt = c.int('nt', 0, 2)
+    g = ns.section_groups.add(num_times=nt)
+    inner = g.sections.add().section_group
+    inner.num_times = 1
+    inner.sections.add(section_id=0)
+    g.sections.add(section_id=1)
+    form = lambda: [0, 1] * c.concretize(nt)
+    limit = 2 * N
+  else:
+    # the form |: A :| B
+    g = ns.section_groups.add(num_times=2)
+    g.sections.add(section_id=0)
+    g2 = ns.section_groups.add(num_times=1)
+    g2.sections.add(section_id=1)
+    form = lambda: [0, 0, 1]
+    limit = 3 * N
+  res = _monitor(c, 'expand_section_groups', [ns],
+                 lambda: sl.expand_section_groups(ns), limit,
+                 allowed=(ValueError,))
+  if res is not None and not c.params.get('reversed_annotations'):
+    # every played section brings its own annotation: the result lists the
+    # sections in the order the groups prescribe
+    want = form()
+    got = list(res.section_annotations)
+    c.check(len(got) == len(want) and
+            c.And([c.eq(a.section_id, w) for a, w in zip(got, want)] or
+                  [True]),
+            'expand_section_groups: sections follow the groups')
 
 
 def op_expand_nogroups(c, sl, N):
@@ -295,13 +714,19 @@ def op_expand_nogroups(c, sl, N):
 def op_redundant(c, sl, N):
   ns, _ = _full(c, N)
   ns.tempos.add(time=c.real('tp2_t', 0), qpm=c.real('tp2_q', 10, 480))
-  ns.sequence_metadata.composers.append('a')
-  _monitor(c, 'remove_redundant_data', [ns],
-           lambda: sl.remove_redundant_data(ns), N)
+  if c.params.get('no_metadata'):
+    ns.ClearField('sequence_metadata')
+  else:
+    ns.sequence_metadata.composers.append('a')
+  res = _monitor(c, 'remove_redundant_data', [ns],
+                 lambda: sl.remove_redundant_data(ns), N)
+  if res is not None and c.params.get('no_metadata'):
+    c.check(not res.HasField('sequence_metadata'),
+            'remove_redundant_data: no metadata appears from nowhere')
 
 
 def op_adjust(c, sl, N):
-  ns, _ = _full(c, N)
+  ns, info = _full(c, N)
   m1 = Fraction(*c.params['m1']) if c.mode == 'sym' else (
       c.params['m1'][0] / c.params['m1'][1])
   m2 = Fraction(*c.params['m2']) if c.mode == 'sym' else (
@@ -314,18 +739,59 @@ def op_adjust(c, sl, N):
       return off + m1 * t
     return off + m1 * bp + m2 * (t - bp)
 
-  _monitor(c, 'adjust_notesequence_times', [ns],
-           lambda: sl.adjust_notesequence_times(ns, f), N,
-           allowed=(sl.InvalidTimeAdjustmentError,))
+  if c.params.get('min_dur'):
+    md = c.real('min_dur', 0)   # 0 behaves like None (documented: skipped)
+    call = lambda: sl.adjust_notesequence_times(ns, f, minimum_duration=md)
+  else:
+    md = None
+    call = lambda: sl.adjust_notesequence_times(ns, f)
+  res = _monitor(c, 'adjust_notesequence_times', [ns], call, N,
+                 allowed=(sl.InvalidTimeAdjustmentError,))
+  if res is None:
+    return
+  out, skipped = res
+  # documented: a note whose adjusted duration is 0 is skipped and counted,
+  # unless a minimum duration is substituted
+  no_md = True if md is None else c.eq(md, 0)
+  flat = [c.And(c.eq(f(n['start_time']), f(n['end_time'])), no_md)
+          for n in info['notes']]
+  c.check(c.eq(skipped, c.Count(flat)),
+          'adjust_notesequence_times: skipped count is the number of notes '
+          'of adjusted duration 0')
+  c.check(c.eq(len(out.notes), N - c.Count(flat)),
+          'adjust_notesequence_times: all other notes are kept')
+  c.check(c.And([m.end_time > m.start_time for m in out.notes] or [True]),
+          'adjust_notesequence_times: kept notes have a positive duration')
 
 
 def op_rectify(c, sl, N):
-  ns, _ = _full(c, N)
+  ns, info = _full(c, N)
   ns.text_annotations.add(
       time=c.real('beat_t', 0),
       annotation_type=c.pb.NoteSequence.TextAnnotation.BEAT)
-  _monitor(c, 'rectify_beats', [ns], lambda: sl.rectify_beats(ns, 120), N,
-           allowed=(sl.RectifyBeatsError, sl.InvalidTimeAdjustmentError))
+  bpm = c.params.get('bpm', 120)
+  res = _monitor(c, 'rectify_beats', [ns], lambda: sl.rectify_beats(ns, bpm),
+                 N, allowed=(sl.RectifyBeatsError, sl.InvalidTimeAdjustmentError))
+  if res is None:
+    return
+  out, alignment = res
+  rows = alignment.tolist()
+  # documented: one row (original time, rectified time) per beat, rectified
+  # beats at regular intervals of 60 / beats_per_minute
+  spb = Fraction(60, bpm) if c.mode == 'sym' else 60.0 / bpm
+  c.check(all(len(r) == 2 for r in rows) and len(rows) >= 1,
+          'rectify_beats: alignment is N-by-2')
+  c.check(c.And([c.approx(r[1], i * spb, 1e-9) for i, r in enumerate(rows)]),
+          'rectify_beats: rectified beats are regularly spaced')
+  c.check(c.And([rows[i][0] < rows[i + 1][0] for i in range(len(rows) - 1)] or
+                [True]),
+          'rectify_beats: original beat times increase')
+  BEAT = c.pb.NoteSequence.TextAnnotation.BEAT
+  for ta in ns.text_annotations:
+    c.check(c.Implies(
+        c.And(c.eq(ta.annotation_type, BEAT), ta.time <= info['tt']),
+        c.Or([c.eq(r[0], ta.time) for r in rows])),
+            'rectify_beats: every beat of the input has its alignment row')
 
 
 _QUANT_OPS = {
@@ -337,16 +803,44 @@ _QUANT_OPS = {
     'rectify_beats': lambda sl, ns: sl.rectify_beats(ns, 120),
 }
 
+# built on extract_subsequence (documented to refuse quantized input) without
+# documenting the refusal themselves: whatever they do, the input stays as is
+_QUANT_OPS_WEAK = {
+    'split_list': lambda sl, ns: sl.split_note_sequence(ns, [1]),
+    'split_hop': lambda sl, ns: sl.split_note_sequence(ns, 1),
+    'split_changes': lambda sl, ns: sl.split_note_sequence_on_time_changes(ns),
+    'split_silence': lambda sl, ns: sl.split_note_sequence_on_silence(ns, 1),
+    'repeat': lambda sl, ns: sl.repeat_sequence_to_duration(ns, 2, 1),
+    'expand': lambda sl, ns: sl.expand_section_groups(ns),
+}
+
 
 def op_quantized_input(c, sl, N):
   """Operations documented to reject quantized input leave it untouched."""
-  ns, _ = _full(c, 1)
   which = c.params['which']
+  weak = which in _QUANT_OPS_WEAK
+  ns, _ = _full(c, 2 if weak else 1, groups=which == 'expand')
   if c.params['abs']:
     ns.quantization_info.steps_per_second = c.int('qsps', 1, 100)
   else:
     ns.quantization_info.steps_per_quarter = c.int('qspq', 1, 96)
+  if which == 'split_hop':
+    c.assume(ns.total_time <= 2)
   before = c.snapshot(ns)
+  if weak:
+    res, err = c.raises(_QUANT_OPS_WEAK[which], sl, ns)
+    c.check(err is None or isinstance(err, (sl.QuantizationStatusError,
+                                            ValueError)),
+            which + ': quantized input: only documented errors')
+    c.check(c.msg_eq(ns, before), which + ': quantized input unchanged')
+    c.cover(which + ' refuses quantized input',
+            isinstance(err, sl.QuantizationStatusError))
+    res2, err2 = c.raises(_QUANT_OPS_WEAK[which], sl, ns)
+    c.check(type(err2) is type(err),
+            which + ': quantized input: second call ends the same way')
+    c.check(c.msg_eq(ns, before),
+            which + ': quantized input unchanged after second call')
+    return
   res, err = c.raises(_QUANT_OPS[which], sl, ns)
   c.check(err is not None and isinstance(err, sl.QuantizationStatusError),
           which + ': quantized input rejected with QuantizationStatusError')
@@ -413,6 +907,85 @@ def jobs(tier):
   for which in _QUANT_OPS:
     add('quantized_input', which=which, abs=False)
   add('quantized_input', which='shift', abs=True)
+  # ---- rarely used keyword arguments and documented defaults
+  add('adjust', N=1, m1=[1, 2], m2=[2, 1], min_dur=True)
+  add('adjust', N=1, m1=[0, 1], m2=[1, 1], min_dur=True)
+  add('adjust', N=2, m1=[0, 1], m2=[1, 1], min_dur=True, lean=[])
+  add('repeat', N=1, shared_time=True, seq_dur=True)
+  add('transpose', N=1, chords=False)
+  add('transpose', N=2, chords=False, lean=['text_annotations'],
+      dup=['text_annotations'])
+  add('transpose', N=1, default_range=True)
+  add('transpose', N=2, default_range=True, lean=[])
+  add('transpose', N=1, in_place=True)
+  add('transpose', N=2, in_place=True, chords=False, lean=['text_annotations'])
+  add('transpose', N=1, odd_chord=True, lean=['key_signatures'])
+  add('stretch', N=1, in_place=True)
+  add('stretch', N=2, in_place=True, lean=['tempos'])
+  add('sustain', N=1, scn=66, lean=['control_changes'])
+  add('extract', N=1, shared_time=True, pcn=7)
+  add('split_silence', N=1, shared_time=True, default_gap=True)
+  add('quantize_rel', N=1, spq=3)
+  add('quantize_abs', N=1, sps=7)
+  add('rectify', N=1, shared_time=True, bpm=90)
+  # ---- siblings: absolute-quantized input, operations built on extraction,
+  # operations that accept quantized input, 0/1/3 sequences, nested groups
+  for which in _QUANT_OPS:
+    if which != 'shift':
+      add('quantized_input', which=which, abs=True)
+  for which in _QUANT_OPS_WEAK:
+    for ab in (False, True):
+      add('quantized_input', which=which, abs=ab)
+  for how in ('rel', 'abs'):
+    add('transpose', N=2, quantized=how, lean=['control_changes'])
+    add('redundant', N=1, quantized=how)
+    # merge / concatenate of already quantized sequences: total_quantized_steps
+    # of the result covers the notes of every input (F-C11-b, fixed: MergeFrom
+    # kept only the last value); concatenate refuses a quantized second
+    # sequence through shift_sequence_times once the first one has a duration
+    add('merge', N=1, quantized=how, lean=[])
+    add('concat', N=1, quantized=how, lean=[])
+    add('quantize_abs', N=1, sps=7, quantized=how)
+    add('quantize_rel', N=1, spq=3, quantized=how)
+  for name in ('concat', 'merge'):
+    add(name, N=1, K=0)
+    add(name, N=1, K=1)
+    add(name, N=1, K=1, same=True)
+    add(name, N=1, K=3, lean=['tempos'])
+  add('concat_dur', N=1, K=2, D=1, lean=[])
+  add('concat_dur', N=1, K=2, D=3, lean=[])
+  add('concat_dur', N=1, K=3, D=3, lean=[])
+  add('expand', N=1, nested=True, lean=['tempos'])
+  # ---- inputs outside the populated shape: two notes in any storage order
+  # for the extraction family, two events of one kind in any storage order,
+  # three pieces, three repeats, empty sequences
+  for skip in (None, True):
+    add('split_list', N=2, M=2, skip=skip, lean=[])
+    add('split_hop', N=2, max_hops=3, skip=skip, lean=['tempos'])
+    add('split_changes', N=2, skip=skip, lean=['tempos', 'time_signatures'])
+  add('split_list', N=1, M=2, skip=None, lean=['control_changes'])
+  add('split_list', N=1, M=2, skip=None, lean=['tempos'])
+  add('split_changes', N=1, skip=False, lean=['tempos'], dup=['tempos'])
+  add('split_silence', N=2, lean=['control_changes'])
+  add('extract', N=2, lean=['control_changes'])
+  add('extract', N=1, lean=['control_changes'], dup=['control_changes'])
+  add('extract', N=1, lean=['text_annotations'], dup=['text_annotations'])
+  add('repeat', N=2, lean=[])
+  add('repeat', N=1, reps=3, lean=['tempos'])
+  add('expand', N=2, lean=[])
+  add('rectify', N=2, lean=[])
+  add('sustain', N=2, lean=[])
+  add('quantize_rel', N=1, spq=4, dup=['tempos', 'time_signatures'])
+  add('quantize_rel', N=1, spq=4, signature=True)
+  add('quantize_abs', N=1, sps=100, dup=['control_changes',
+                                          'text_annotations'])
+  add('redundant', N=1, no_metadata=True)
+  for name in ('trim', 'shift', 'stretch', 'transpose', 'sustain', 'merge',
+               'concat', 'redundant', 'split_silence', 'extract'):
+    add(name, N=0, lean=['tempos', 'control_changes'])
+  add('concat_dur', N=0, lean=['tempos'])
+  add('adjust', N=0, m1=[1, 2], m2=[2, 1], lean=['control_changes'])
+  add('quantize_rel', N=0, spq=4)
   if deep:
     for name in ('trim', 'extract', 'split_silence', 'shift', 'stretch',
                  'transpose', 'sustain', 'concat', 'merge', 'repeat', 'expand',
@@ -431,4 +1004,16 @@ def jobs(tier):
     add('adjust', N=2, m1=[0, 1], m2=[1, 1], budget=1800)
     for name in ('trim', 'shift', 'stretch'):
       add(name, N=3, budget=1800)
+    # the quick-tier variants on richer inputs
+    for skip in (None, True):
+      add('split_list', N=1, M=2, skip=skip, budget=900,
+          lean=['control_changes', 'tempos'])
+    add('extract', N=2, budget=900, lean=['control_changes'],
+        dup=['control_changes'])
+    add('extract', N=1, budget=900, shared_time=True, pcn=64)
+    add('expand', N=1, budget=900, shared_time=True, nested=True)
+    add('repeat', N=1, budget=900, shared_time=True, seq_dur=True, reps=3,
+        required=False)
+    add('sustain', N=1, budget=900, scn=66)
+    add('adjust', N=2, m1=[0, 1], m2=[1, 1], min_dur=True, budget=1800)
   return J
